@@ -15,6 +15,7 @@ import (
 	"fmt"
 	"os"
 	"reflect"
+	"runtime/pprof"
 	"sort"
 	"strings"
 	"time"
@@ -589,6 +590,22 @@ func genHistories(e *emitter, r *hc.Rand, n int) {
 		for i := 0; i < 2+g.r.Intn(2); i++ {
 			pool = append(pool, &V{K: "ptr", Elem: g.strct(1 + g.r.Intn(2))})
 		}
+		if g.r.Chance(1, 2) {
+			// distinct types that share their NAME (and field names) with different tags; Taggable maps with the same keys and other tags
+			fam := [][]string{{"LocalA", "LocalB", "LocalC"}, {"LocalD", "LocalE"}, {"LocalB", "LocalE", "LocalA", "LocalD"}}[g.r.Intn(3)]
+			for _, n := range fam {
+				l := g.localOf(n)
+				switch g.r.Intn(4) {
+				case 0:
+					pool = append(pool, &V{K: "slice", Elem: l, Elems: []*V{l}})
+				case 1:
+					pool = append(pool, &V{K: "ptr", Elem: &V{K: "struct", Fields: []Field{{Name: "F1", V: &V{K: "ptr", Elem: l}}}}})
+				default:
+					pool = append(pool, &V{K: "ptr", Elem: l})
+				}
+			}
+			pool = append(pool, g.tmap(1))
+		}
 		var h []HistStep
 		for i := 0; i < 4+g.r.Intn(4); i++ {
 			var c Cfg
@@ -783,7 +800,15 @@ func main() {
 	crypto := flag.Bool("crypto", false, "C16 mode: key selection, rotation and value formats")
 	nCrypto := flag.Int("crypto-histories", 300, "C16 mode: number of random histories")
 	concOnly := flag.Bool("crypto-conc-only", false, "C16 mode: only the events processed concurrently with rotations")
+	cpuProf := flag.String("cpuprofile", "", "write a CPU profile of the run to this file")
 	flag.Parse()
+	if *cpuProf != "" {
+		if pf, err := os.Create(*cpuProf); err == nil {
+			if pprof.StartCPUProfile(pf) == nil {
+				defer pprof.StopCPUProfile()
+			}
+		}
+	}
 
 	if *replay != "" {
 		data, err := os.ReadFile(*replay)
